@@ -6,6 +6,12 @@ OPAQUE_DEFAULT = {"log_data"}
 
 
 def mk_interp(prog, opaque=(), event_hook=None, **kw):
+    import os
+    if os.environ.get("HOOT_DEEP") == "1":
+        # thorough tier: loops are unrolled two iterations further before widening / atom recycling sets in, and
+        # the abstract-state budget is four times larger
+        kw["loop_bound"] = kw.get("loop_bound", 3) + 2
+        kw["max_states"] = kw.get("max_states", 60000) * 4
     return Interp(prog, axioms=AXIOMS, opaque=set(OPAQUE_DEFAULT) | set(opaque), event_hook=event_hook, **kw)
 
 
